@@ -250,7 +250,7 @@ End ParamFiles.
 
 (* ---------- the reading configuration of the tools: PDS processors removed ---------- *)
 Definition tp_noproc (c : fieldcfg) : fieldcfg :=
-  if proc_eqb (f_proc c) PPDS then mkfc (f_type c) (f_len c) (f_ptype c) (f_datefmt c) PNone (f_proccfg c) else c.
+  if proc_eqb (f_proc c) PPDS then mkfc (f_type c) (f_len c) (f_ptype c) (f_datefmt c) PNone (f_de43 c) else c.
 
 Lemma tp_cfg_get_nopds : forall cfg b, cfg_get (cfg_nopds cfg) b = option_map tp_noproc (cfg_get cfg b).
 Proof.
@@ -261,6 +261,9 @@ Qed.
 Lemma tp_noproc_proj : forall c, f_type (tp_noproc c) = f_type c /\ f_len (tp_noproc c) = f_len c /\
   f_ptype (tp_noproc c) = f_ptype c /\ f_datefmt (tp_noproc c) = f_datefmt c.
 Proof. intros c. unfold tp_noproc. destruct (proc_eqb (f_proc c) PPDS); auto. Qed.
+
+Lemma tp_noproc_de43 : forall c, f_de43 (tp_noproc c) = f_de43 c.
+Proof. intros c. unfold tp_noproc. destruct (proc_eqb (f_proc c) PPDS); reflexivity. Qed.
 
 Lemma tp_noproc_proc : forall c, f_proc (tp_noproc c) = match f_proc c with PPDS => PNone | p => p end.
 Proof. intros c. unfold tp_noproc. destruct (f_proc c) eqn:E; cbn [proc_eqb]; try exact E; reflexivity. Qed.
@@ -285,8 +288,8 @@ Qed.
 
 Lemma tp_wf_fieldb_noproc : forall c, wf_fieldb c = true -> wf_fieldb (tp_noproc c) = true.
 Proof.
-  intros c H. unfold wf_fieldb in *. destruct (tp_noproc_proj c) as (H1 & H2 & H3 & H4).
-  rewrite H1, H2, H3, H4, tp_noproc_proc.
+  intros c H. unfold wf_fieldb, de43_for_text in *. destruct (tp_noproc_proj c) as (H1 & H2 & H3 & H4).
+  rewrite H1, H2, H3, H4, tp_noproc_proc, ?tp_noproc_de43.
   destruct (f_len c) as [n|]; [|discriminate].
   destruct (f_ptype c); destruct (f_proc c); try exact H; try discriminate H; reflexivity.
 Qed.
@@ -392,6 +395,9 @@ Proof.
   intros c v H1 H2. unfold ir_fexp. destruct v; try reflexivity. destruct (f_proc c); try reflexivity; contradiction.
 Qed.
 
+(* keys the encoder never looks at: ICC sub-elements and the named groups of a DE43 splitting pattern *)
+Definition tp_side_key (k : key) : bool := match k with KTAG _ | KICC | KOther _ => true | _ => false end.
+
 (* the dictionary read with a plain configuration: the MTI, exactly the elements that were encoded, no PDS keys *)
 Lemma tp_plain_dict : forall cfg m1 mti ents, tp_plain cfg ->
   Forall2 (ir_ent_of cfg m1) (filter (ir_pres m1) bit_range) ents ->
@@ -401,15 +407,16 @@ Lemma tp_plain_dict : forall cfg m1 mti ents, tp_plain cfg ->
 Proof.
   intros cfg m1 mti ents Hpl Hents.
   assert (HE : forall k x, In (k, x) (concat ents) ->
-            (exists b, ir_pres m1 b = true /\ lookup m1 (KDE b) = Some x /\ k = KDE b) \/ ir_tag_key k = true).
+            (exists b, ir_pres m1 b = true /\ lookup m1 (KDE b) = Some x /\ k = KDE b) \/ tp_side_key k = true).
   { intros k x Hin.
     destruct (ir_forall2_concat_in _ _ _ _ Hents Hin) as [b [es [Hb [[c [v [Hc [Hv Hf]]]] Hx]]]].
     apply filter_In in Hb. destruct Hb as [_ Hb].
     destruct (Hpl b c Hc) as (P1 & P2 & P3).
-    destruct (ir_fent_in _ _ _ _ _ _ Hf Hx) as [[K1 K2]|[[K _]|K]].
+    destruct (ir_fent_in _ _ _ _ _ _ Hf Hx) as [[K1 K2]|[[K _]|[K|[p0 [n0 [_ [_ [K _]]]]]]]].
     - left. exists b. rewrite (tp_fexp_plain c v P2 P3) in K2. subst x. auto.
     - contradiction.
-    - right. exact K. }
+    - right. destruct k; try discriminate K; reflexivity.
+    - right. subst k. reflexivity. }
   split; [|split].
   - rewrite ir_lookup_dupdate_notin.
     + cbn [lookup key_eqb]. reflexivity.
